@@ -9,7 +9,7 @@ Monitors (attached from the harness, at the API boundary):
 """
 import itertools
 
-from ..common import Result, rng_for, h64, make_riscv, install_program, set_regs, preload_mem, real_regs, instr_text, M32
+from ..common import guarded, Result, rng_for, h64, make_riscv, install_program, set_regs, preload_mem, real_regs, instr_text, M32
 from ..refmodels.rv32 import SeqRef, Fault
 from ..refmodels.timed5 import TimedRef
 from ..gen import progs as G
@@ -141,7 +141,7 @@ def run_shard(spec, res):
     kind = spec["kind"]
     if kind == "directed":
         for case in directed_cases(hz):
-            run_case(prop, case, res)
+            guarded(run_case, prop, case, res)
             res.evaluations += 1
             res.sample(case, 2)
         return
@@ -155,7 +155,7 @@ def run_shard(spec, res):
                 prog = [dict(alphabet(i, n)[s]) for i, s in enumerate(combo)]
                 for rf in REGFILES:
                     case = {"kind": "pipe", "prog": prog, "regs": rf, "mem": MEM0, "hz": hz, "max_instr": 40}
-                    run_case(prop, case, res)
+                    guarded(run_case, prop, case, res)
                     res.evaluations += 1
         res.exhaustive = True
         res.extra["enumeration"] = "all sequences of length 1..%d over the 14-symbol alphabet x 3 register files" % spec["nmax"]
@@ -185,7 +185,7 @@ def run_shard(spec, res):
         elif kind == "padded":
             prog, regs = pad_source(rng)
             case = {"kind": "pipe", "prog": G.pad_with_nops(prog, 2), "regs": regs, "mem": G.init_mem(rng), "hz": False, "max_instr": 400, "padded": True}
-        run_case(prop, case, res)
+        guarded(run_case, prop, case, res)
         res.evaluations += 1
         if it < 1:
             res.sample(case, 4)
